@@ -566,7 +566,7 @@ func c12One(o *out, text string, sch c12Schema, tag string) {
 	}
 	// over a subquery: a whole wildcard stands for the subquery's output columns (as ColumnNames lists them) and its
 	// dimensions, without the tags the statement groups by
-	c12OverSubquery(o, q, res, rerr, text, string(sj), rp)
+	c12OverSubquery(o, q, res, rerr, text, string(sj), rp, sch)
 	// the property, directly: the result is the independent expansion
 	if !c12StandardTypes(sch) {
 		return
@@ -728,7 +728,8 @@ func propC12(o *out, r *rng, thorough bool) {
 		}
 	}
 	// subqueries whose output columns are themselves tags, grouped tags, aliases and expanded calls
-	inners := []string{"SELECT host, v1 FROM m0 GROUP BY host", "SELECT host, v1 FROM m0", "SELECT * FROM m0", "SELECT * FROM m0 GROUP BY *", "SELECT v1 FROM m0 GROUP BY host", "SELECT host::tag, v1 FROM m0",
+	inners := []string{"SELECT host::field, v1 FROM m0", "SELECT host, v1 FROM (SELECT host::field, v1 FROM m0)", "SELECT region, v2 FROM (SELECT region::field, v2 FROM m0) GROUP BY region", "SELECT v1::tag, host::integer FROM m1",
+		"SELECT bottom(v1, host, region, 2) FROM m0", "SELECT top(v1, host, 2), v2 FROM m0 GROUP BY region", "SELECT host, v1 FROM m0 GROUP BY host", "SELECT host, v1 FROM m0", "SELECT * FROM m0", "SELECT * FROM m0 GROUP BY *", "SELECT v1 FROM m0 GROUP BY host", "SELECT host::tag, v1 FROM m0",
 		"SELECT mean(*) FROM m1 GROUP BY dc", "SELECT v1 AS host, v2 FROM m0 GROUP BY host", "SELECT max(v1), region FROM m0, m1 GROUP BY region, time(1m)", "SELECT top(v1, host, 2) FROM m0", "SELECT v1 + v2 AS s, value FROM m2",
 		"SELECT * FROM (SELECT host, v1 FROM m0 GROUP BY host)", "SELECT /v/ FROM (SELECT * FROM m1) GROUP BY /h/"}
 	for _, in := range inners {
@@ -774,7 +775,7 @@ func init() {
 	}
 }
 
-func c12OverSubquery(o *out, q, res *influxql.SelectStatement, rerr error, text, sj string, rp map[string]interface{}) {
+func c12OverSubquery(o *out, q, res *influxql.SelectStatement, rerr error, text, sj string, rp map[string]interface{}, sch c12Schema) {
 	if rerr != nil || len(q.Sources) != 1 || len(q.Fields) != 1 || res == nil || len(res.Sources) != 1 {
 		return
 	}
@@ -817,7 +818,8 @@ func c12OverSubquery(o *out, q, res *influxql.SelectStatement, rerr error, text,
 	}
 	tagCol := map[string]bool{}
 	for _, f := range inner.Fields {
-		if v, ok := f.Expr.(*influxql.VarRef); ok && v.Type == influxql.Tag {
+		// (a column is a tag when the type evaluation says so: a tag written with a ::field cast is still a tag)
+		if v, ok := f.Expr.(*influxql.VarRef); ok && (v.Type == influxql.Tag || influxql.EvalType(v, inner.Sources, &c12Mapper{sch}) == influxql.Tag) {
 			tagCol[f.Name()] = true
 		}
 	}
